@@ -3,7 +3,7 @@
    (lexer -> token stream -> parser -> transforms), proofs in proofs/CostExamples.v. *)
 From Coq Require Import List NArith Bool Arith.
 Import ListNotations.
-From PV Require Import Regex Base LexTables NodeModel ParserBase ParserDecl ParserMain Api CostExamples UnicodeTables PyRepr Lexer LexerProofs BinaryRefine StreamLib RoundTrip RoundTripGen RoundTripX.
+From PV Require Import Regex Base LexTables NodeModel ParserBase ParserDecl ParserMain Api CostExamples UnicodeTables PyRepr Lexer LexerProofs BinaryRefine StreamLib RoundTrip RoundTripGen RoundTripX StmtTrip.
 
 (* witness of exponential growth: nesting depth 1 *)
 Theorem C16_complit_1 :
@@ -86,3 +86,28 @@ Proof.
   exists f0, N, s'. split; [exact H|split; [exact HU'|split; [exact Hi|exact Ht]]].
 Qed.
 Print Assumptions C16_generated_expression_linear.
+
+(* ... and the statement parser is linear on everything the generator prints for the statement language [st]
+   (expression statements, empty statements, return / break / continue / goto, if / if-else, while, do-while,
+   for with optional clauses, nested blocks) over those expressions, of ANY size and nesting depth: in a block-item
+   position p_statement consumes exactly the |le| generated tokens and calls next() at most 3 |le| times *)
+Theorem C16_generated_statement_linear : forall (P: Type) rp (x: st), swf x ->
+  forall (s: ParserBase.pstate P) le stop l0, Spell P le (stoks rp x) -> Up P s (le ++ stop :: l0) ->
+  (sopen x = true -> kind_eqb (tk stop) K_ELSE = false) ->
+  exists f0 N s', (forall f, (f0 <= f)%nat -> p_statement P f s = Ok (N, s')) /\ Up P s' (stop :: l0) /\
+    idx P s' = (idx P s + length le)%nat /\ (N.to_nat (ticks P s') <= N.to_nat (ticks P s) + 3 * length le)%nat.
+Proof.
+  intros P rp x Hw s le stop l0 HS HU Hop.
+  destruct (parse_of_generated_block_item_cost P rp x Hw s le stop l0 HS HU Hop) as [f0 [N [s' [H [HU' [_ [Hi Ht]]]]]]].
+  exists f0, N, s'. split; [exact H|split; [exact HU'|split; [exact Hi|exact Ht]]].
+Qed.
+Print Assumptions C16_generated_statement_linear.
+
+(* the hypotheses of the two theorems are satisfiable and the accounting is the model's own: on `( a + b ) * c ;`
+   p_expression consumes the 7 tokens with 9 calls of next() (the parenthesis is read three times) *)
+Theorem C16_linear_example :
+  wf ex_cost_e /\ Spell nat ex_toks (xt false ex_cost_e) /\
+  Up nat ex_state (ex_toks ++ [mkTok nat K_SEMI (s2l ";") 8]) /\ estop K_SEMI = true /\
+  match p_expression nat 60 ex_state with Ok (_, s') => (idx nat s', ticks nat s') = (7%nat, 9%N) | _ => False end.
+Proof. exact cost_hypotheses_satisfiable. Qed.
+Print Assumptions C16_linear_example.
